@@ -175,7 +175,7 @@ class FGTreeNode:
         return (
             self.fgconfig.pattern_len,
             len(self.fgconfig.pattern),
-            hash(self.fgconfig.pattern_str),
+            self.fgconfig.pattern_str,
         )
 
     def add_child(self, child: FGTreeNode):
@@ -189,7 +189,7 @@ def sort_by_pattern_len(configs: list[FGConfig], reverse=False) -> list[FGConfig
     return list(
         sorted(
             configs,
-            key=lambda x: (x.pattern_len, len(x.pattern), hash(x.pattern_str)),
+            key=lambda x: (x.pattern_len, len(x.pattern), x.pattern_str),
             reverse=reverse,
         )
     )
